@@ -32,7 +32,7 @@ func (c08) Runs(tier string) int64 {
 }
 func (c08) Prefix(string, int64) []uint64 { return nil }
 
-var c08weights = InputWeights{Corpus: 3, Valid: 6, ICCDamaged: 2, Damaged: 3, SigJunk: 1, Polyglot: 1}
+var c08weights = InputWeights{Corpus: 3, Valid: 6, ICCDamaged: 2, Damaged: 3, SigJunk: 1, Polyglot: 1, ShortSOF: 1}
 var c08iccSizes = []int{1, 2, 127, 500, 3000, 4000, 4090, 4096, 4100, 8192, 20000, 70000}
 
 // ICCView is the observable content of a profile read.
